@@ -87,6 +87,25 @@ Definition SECOND : Z := 1000000000.
 Definition conv_periodic (mint_period mint_amount rpl factor : Z) : mconfig :=
   CExp (mint_amount * rpl) (wrap32 (mint_period * rpl) * SECOND) factor.
 
+(* ------------------------------------------------------------------ version 1 -> 2 store migrations (v1.1.0) *)
+(* x/cfevesting/migrations/v2/store.go: a v1 pool {Vested, Withdrawn, LastModificationVested, LastModificationWithdrawn} becomes
+   {InitiallyLocked := Vested; Withdrawn; Sent := LastModificationWithdrawn + Vested - Withdrawn - LastModificationVested} *)
+Record v1pool := { v1_vested : Z; v1_withdrawn : Z; v1_lmv : Z; v1_lmw : Z }.
+Definition migrate_v1_pool (p : v1pool) : Z * Z * Z :=          (* (initially locked, withdrawn, sent) *)
+  (v1_vested p, v1_withdrawn p, v1_lmw p + v1_vested p - v1_withdrawn p - v1_lmv p).
+(* what a v1 pool still locked: the amount at its last modification minus what was withdrawn since *)
+Definition v1_currently_locked (p : v1pool) : Z := v1_lmv p - v1_lmw p.
+(* vesting types: the free fraction did not exist; "Validators" (harness: name flag) gets 5%, all others 0 *)
+Definition migrate_v1_vtype_free (is_validators : bool) : Z := if is_validators then 50000000000000000 else 0.
+
+(* x/cfeminter/migrations/v2/store.go: Position (int32) becomes SequenceId (uint32); the state is refused when a counter is negative *)
+Definition wrap_u32 (x : Z) : Z := x mod 4294967296.
+Definition migrate_v1_mstate (position minted rem rem_prev : Z) : option (Z * Z * Z * Z) :=
+  if (minted <? 0) || (rem_prev <? 0) || (rem <? 0) then None else Some (wrap_u32 position, minted, rem, rem_prev).
+
+(* x/cfedistributor/migrations/v2/store.go: the burn state loses its account, everything else is copied *)
+Definition migrate_v1_dstate (burn : bool) (acct_key : Z) : Z := if burn then 0 else acct_key.   (* 0: no account *)
+
 (* ------------------------------------------------------------------ comparison with the implementation *)
 Definition minter_code (m : minter) : list Z :=
   [m_seq m; match m_end m with Some e => e | None => -1 end] ++
@@ -99,7 +118,9 @@ Inductive gcase_body :=
 | GDistr (subs : list psub)                   (* expected: [1; distr_code] or [0] *)
 | GVestParams (nonempty ok : bool)            (* expected: [1] or [0] *)
 | GPercent (pct : Z)                          (* expected: [share] *)
-| GPeriodic (mp ma rpl f : Z).                (* expected: [amount; step; mult] *)
+| GPeriodic (mp ma rpl f : Z)                 (* expected: [amount; step; mult] *)
+| GV1Pools (ps : list v1pool)                 (* expected: per pool [locked; withdrawn; sent; currently locked after] *)
+| GV1MState (position minted rem rem_prev : Z). (* expected: [1; seq; minted; rem; rem_prev] or [0] *)
 
 Record gcase := { gc_id : Z; gc_body : gcase_body; gc_expected : list Z }.
 
@@ -110,6 +131,8 @@ Definition gcase_got (c : gcase) : list Z :=
   | GVestParams ne ok => match migrate_vesting_params_v3 ne ok with Ok _ => [1] | _ => [0] end
   | GPercent pct => [share_from_percent pct]
   | GPeriodic mp ma rpl f => match conv_periodic mp ma rpl f with CExp a s mu => [a; s; mu] | _ => [] end
+  | GV1Pools ps => flat_map (fun p => let '(l, w, se) := migrate_v1_pool p in [l; w; se; l - se - w]) ps
+  | GV1MState po mi re rp => match migrate_v1_mstate po mi re rp with Some (a, b, c, d) => [1; a; b; c; d] | None => [0] end
   end.
 
 Definition gmismatches (cs : list gcase) : list (Z * Z * list Z) :=
